@@ -1,0 +1,60 @@
+//go:build verif
+
+// Contracts for the govc verifier (/verif). Comment-only: with the build tag
+// off this file does not exist for the compiler, with it on it adds nothing
+// but comments.
+
+package txsizes
+
+//@ spec func sumOut(rows [Int]Int, pk [Int]Slice, off Int, n Int) Int
+//@ axiom sumOut_0: forall rows [Int]Int, pk [Int]Slice, off Int :: sumOut(rows, pk, off, 0) == 0
+//@ axiom sumOut_s: forall rows [Int]Int, pk [Int]Slice, off Int, n Int :: {sumOut(rows, pk, off, n)}
+//@     n > 0 ==> sumOut(rows, pk, off, n) == sumOut(rows, pk, off, n-1) + outSize(select(pk, select(rows, off+n-1)).len)
+//@ macro SUMOUT(os, n) = sumOut(select(@M(*wire.TxOut), os.base), @H(wire.TxOut.PkScript), os.off, n)
+
+// worst-case signed virtual size (BIP141/144) of a transaction with the given
+// input mix, the given outputs and an optional change output; low-S DER
+// signatures (<= 71 bytes + sighash byte), 33-byte compressed keys, Schnorr
+// 64 bytes + optional sighash byte. nOut is the number of requested outputs,
+// sumOuts their serialized size.
+//@ spec func worstBase(p2pkh Int, p2tr Int, p2wpkh Int, nested Int, nOut Int, sumOuts Int, chg Int) Int =
+//@     8 + varint(p2pkh + p2tr + p2wpkh + nested) + varint(nOut + (chg > 0 ? 1 : 0))
+//@     + p2pkh*(32+4+1+107+4) + (p2wpkh + p2tr)*(32+4+1+0+4) + nested*(32+4+1+23+4)
+//@     + sumOuts + (chg > 0 ? 8 + varint(chg) + chg : 0)
+//@ spec func worstWit(p2pkh Int, p2tr Int, p2wpkh Int, nested Int) Int =
+//@     (p2wpkh + nested + p2tr > 0) ? 2 + p2pkh + (p2wpkh + nested)*(1+1+72+1+33) + p2tr*(1+1+65) : 0
+//@ spec func worstVSize(p2pkh Int, p2tr Int, p2wpkh Int, nested Int, nOut Int, sumOuts Int, chg Int) Int =
+//@     worstBase(p2pkh, p2tr, p2wpkh, nested, nOut, sumOuts, chg) + (worstWit(p2pkh, p2tr, p2wpkh, nested) + 3) / 4
+
+//@ func SumOutputSerializeSizes(outputs) (serializeSize)
+//@   property C07
+//@   requires len: len(outputs) < 1048576
+//@   requires elems: forall i Int :: {outputs[i]} 0 <= i && i < len(outputs) ==> outputs[i] != nil && len(outputs[i].PkScript) <= 1048576
+//@   invariant 1 idx: 0 <= rangeindex + 1 && rangeindex + 1 <= len(outputs)
+//@   invariant 1 acc: serializeSize == SUMOUT(outputs, rangeindex + 1)
+//@   invariant 1 bound: 0 <= serializeSize && serializeSize <= (rangeindex + 1) * 1048600
+//@   ensures sum: serializeSize == SUMOUT(outputs, len(outputs))
+//@   ensures bound: 0 <= serializeSize && serializeSize <= len(outputs) * 1048600
+
+//@ func EstimateSerializeSize(inputCount, txOuts, addChangeOutput) (r)
+//@   property C07
+//@   requires counts: 0 <= inputCount && inputCount < 1048576 && len(txOuts) < 1048576
+//@   requires elems: forall i Int :: {txOuts[i]} 0 <= i && i < len(txOuts) ==> txOuts[i] != nil && len(txOuts[i].PkScript) <= 1048576
+//@   ensures exact: r == 8 + varint(inputCount) + varint(len(txOuts) + (addChangeOutput ? 1 : 0)) + inputCount*149
+//@       + SUMOUT(txOuts, len(txOuts)) + (addChangeOutput ? 34 : 0)
+
+//@ func EstimateVirtualSize(numP2PKHIns, numP2TRIns, numP2WPKHIns, numNestedP2WPKHIns, txOuts, changeScriptSize) (r)
+//@   property C07
+//@   replay txsizes_vsize.go
+//@   requires counts: 0 <= numP2PKHIns && numP2PKHIns < 1048576 && 0 <= numP2TRIns && numP2TRIns < 1048576
+//@       && 0 <= numP2WPKHIns && numP2WPKHIns < 1048576 && 0 <= numNestedP2WPKHIns && numNestedP2WPKHIns < 1048576
+//@   requires outs: len(txOuts) < 1048576 && 0 <= changeScriptSize && changeScriptSize <= 1048576
+//@   requires elems: forall i Int :: {txOuts[i]} 0 <= i && i < len(txOuts) ==> txOuts[i] != nil && len(txOuts[i].PkScript) <= 1048576
+//@   ensures upper_bounds_real: r >= worstVSize(numP2PKHIns, numP2TRIns, numP2WPKHIns, numNestedP2WPKHIns,
+//@       len(txOuts), SUMOUT(txOuts, len(txOuts)), changeScriptSize)
+//@   ensures not_excessive: r <= worstVSize(numP2PKHIns, numP2TRIns, numP2WPKHIns, numNestedP2WPKHIns,
+//@       len(txOuts), SUMOUT(txOuts, len(txOuts)), changeScriptSize) + numP2PKHIns + numP2WPKHIns + numNestedP2WPKHIns + numP2TRIns + 3
+
+//@ func GetMinInputVirtualSize(pkScript) (r)
+//@   property C07
+//@   ensures range: r == 149 || r == 41 + 28 || r == 64 + 28 || r == 41 + 17
